@@ -466,7 +466,7 @@ func failHard(prop, verif, tier string, seed int, t0 time.Time, msg string) {
 }
 
 // lemmaUnit proves the lemmas tagged with the property as standalone obligations.
-func (e *Engine) lemmaUnit(prop string) *Unit {
+func (e *Engine) lemmaUnit(prop string) (ru *Unit) {
 	var ls []*Axiom
 	for _, a := range e.cf.Axioms {
 		if a.Lemma && hasProp(a.Props, prop) {
@@ -477,6 +477,7 @@ func (e *Engine) lemmaUnit(prop string) *Unit {
 		return nil
 	}
 	u := newUnit(e, "lemma", e.root)
+	ru = u
 	u.props = []string{prop}
 	defer func() {
 		if r := recover(); r != nil {
@@ -492,9 +493,31 @@ func (e *Engine) lemmaUnit(prop string) *Unit {
 	for _, a := range ls {
 		st := newState()
 		u.axiomTerms = nil
-		u.assumeAxioms(st)
+		u.bv = a.BV
+		if !a.BV {
+			u.assumeAxioms(st)
+		}
 		c := &Clause{Text: a.Text, File: a.File, Line: a.Line}
-		t := u.specBoolAt(st, st, map[string]Value{}, a.Expr, c, 0)
+		// top-level universal quantifiers of a goal are proved for fresh constants (any type,
+		// including slices and structs)
+		env := map[string]Value{}
+		body := a.Expr
+		st.clock = u.clk0()
+		for {
+			q, ok := body.(*SQuant)
+			if !ok || !q.Forall {
+				break
+			}
+			for _, v := range q.Vars {
+				t, err := e.resolveType(e.root.Types, v.Type)
+				if err != nil {
+					panic(engineError(fmt.Sprintf("%s:%d: %v", shortFile(a.File), a.Line, err)))
+				}
+				env[v.Name] = u.freshValue(st, v.Name, t)
+			}
+			body = q.Body
+		}
+		t := u.specBoolAt(st, st, env, body, c, 0)
 		u.oblige(st, a.Name, "lemma", []string{prop}, t, 0, a.Text)
 	}
 	return u
